@@ -153,6 +153,8 @@ __CPROVER_assigns(g.called)
 __CPROVER_ensures(g.called == OLD(g.called) + 1);
 void IncRef(Job* s) __CPROVER_requires((Strand*)s == g.self) __CPROVER_assigns(g.increfs) __CPROVER_ensures(g.increfs == OLD(g.increfs) + 1);
 void DecRef(Job* s) __CPROVER_requires((Strand*)s == g.self) __CPROVER_assigns(g.decrefs) __CPROVER_ensures(g.decrefs == OLD(g.decrefs) + 1);
+/* IExecutor::Alive of the underlying executor: whatever it answers may be stale as soon as it returns (and a stopped executor still owes every accepted job a Drop) */
+int Alive(void* executor) __CPROVER_assigns() __CPROVER_ensures(RET == 0 || RET == 1);
 /* the underlying executor: accepts the strand's own job (it will later Call or Drop it exactly once) */
 void Submit(void* executor, Strand* job)
 __CPROVER_requires(executor == g.exec && job == g.self)
@@ -227,7 +229,7 @@ __CPROVER_ensures(g.increfs == 0)
     harness = ('void harness(void) {\n  ghost_havoc(); POOL_INIT();\n  Strand* self;\n  Strand_Call(self);\n'
                '  if (g.batch == B_NONE) VF_CANARY("released"); else VF_CANARY("resubmitted");\n  if (g.taken > 1) VF_CANARY("several jobs");\n}\n')
     out.append(Job('strand/Call', props, PROTO + contract + '{' + c + '}\n' + harness, 'harness', enforce='Strand_Call',
-                   replace=['Call', 'DecRef', 'Submit'], loop_contracts=True, funcs=[b_call], canaries=3, timeout=300,
+                   replace=['Call', 'DecRef', 'Submit', 'Alive'], loop_contracts=True, funcs=[b_call], canaries=3, timeout=300,
                    expect=[r'postcondition', r'G_run', r'invariant after step|loop_invariant_step', r'SHAPE'], meta={'fn': 'Call'}))
 
     # ---- Drop ----------------------------------------------------------------------------------------
